@@ -502,6 +502,8 @@ class SymEval:
                 return
             if isinstance(old, tuple) and old and old[0] in ("closure", "iterdesc"):
                 return
+            if a and a[0] == "v":
+                return   # an opaque parameter stays the same opaque object (its contents were unknown anyway)
             env[name] = app("mutated", old)
 
     def e_cast(self, n, env):
